@@ -95,7 +95,8 @@ func GradientCandidates2(stops []Stop16, spread uint8, o, disc, delta float64) [
 		} else {
 			out = append(out, at(o-math.Floor(o), "repeat, fractional part"))
 		}
-		if math.Floor(hi) != math.Floor(lo) || lo == math.Floor(lo) || hi == math.Floor(hi) {
+		// disc == 0: the offset is exact, so is its fractional part (0 at an integer outside [0,1])
+		if disc > 0 && (math.Floor(hi) != math.Floor(lo) || lo == math.Floor(lo) || hi == math.Floor(hi)) {
 			out = append(out, at(0, "repeat, just above an integer"), at(1, "repeat, just below an integer"))
 		}
 	}
